@@ -154,6 +154,14 @@ Fails15(sessions, L, cr, node) ==
                               PeerOf(sessions[i]) = (IF n.iface # "" THEN n.iface ELSE n.address),
                "C15.Stray")
 
+(* the speaker's choice for one peer (c = [pw, secretpw, ref, impl, handling]): never both; the configured   *)
+(* password is carried as it is, a configured secret as its content or as the reference                      *)
+PwFails(c, password, secret) ==
+  If(~(password # "" /\ secret.name # ""), "C15.PasswordXor")
+  \cup If(IF c.pw # "" THEN password = c.pw /\ secret.name = ""
+          ELSE IF c.ref.name # "" THEN (password = c.secretpw /\ secret.name = "") \/ (password = "" /\ secret = c.ref)
+          ELSE password = "" /\ secret.name = "", "C15.Params.password")
+
 (* a session carrying both a password and a secret reference may be refused *)
 Live15(sessions, created) == {i \in DOMAIN sessions : ~sessions[i].ghost /\ (created[i] \/ ~Both(sessions[i]))}
 
